@@ -29,11 +29,19 @@ def check(ctx, cfg):
     r2(ctx, cfg)
     r3(ctx, cfg)
     r4(ctx, cfg)
+    r5(ctx, cfg)
 
 
-def r1(ctx, cfg):
+def r5(ctx, cfg):
+    """"absorbed exactly when the sub-message was sent with reply_on Error or Always": the reply mode execute_submsg acts on
+    is the one the contract chose - for contracts written against `Empty` the sub-message passes through customize_msg first,
+    which must carry reply_on (and id, payload, gas_limit) over unchanged (premise shared with C03 / C17)"""
+    from rules import C17
+    C17.submsg_fields(ctx, cfg, "C02.R5")
+
+
+def r1(ctx, cfg, R="C02.R1"):
     F, P = cfg.facts, cfg.prov
-    R = "C02.R1"
     f = ctx.need_fn(R, KEY)
     if f is None:
         return
